@@ -212,8 +212,12 @@ func runCheckOpts(opts *CheckOpts) int {
 					panic(r)
 				}
 			}()
-			vc.Translate()
-			vc.finish()
+			if strings.TrimSpace(fc.Arith) == "bv" {
+				vc.TranslateBV()
+			} else {
+				vc.Translate()
+				vc.finish()
+			}
 		}()
 		rep.vc = vc
 		for _, e := range vc.errs {
